@@ -497,14 +497,22 @@ class MonC10(Monitor):
                 bad('counter', 'n_like is {} on return, expected {}'.format(
                     int(s.n_like), expect))
             r = world.cfg['run']
-            pred = bool(s.explored and np.all(s.shell_n >= r['n_shell']) and
-                        s.n_eff >= r['n_eff'])
+            # the success predicate, evaluated on the stored samples of the
+            # current view themselves (not on the sampler's own counters)
+            view_on = bool(s._discard_exploration and s.explored)
+            counts = []
+            for i, pts in enumerate(s.points):
+                start = int(s.shell_end_exp[i]) if (
+                    view_on and len(s.shell_end_exp) == len(s.points)) else 0
+                counts.append(len(pts) - start)
+            enough = bool(len(counts) and min(counts) >= r['n_shell'])
+            pred = bool(s.explored and enough and s.n_eff >= r['n_eff'])
             if bool(c['ret']) != pred:
                 bad('return_value', 'run() returned {} but explored={}, '
-                    'min shell_n={}, n_eff={!r} (targets n_shell={}, '
-                    'n_eff={})'.format(
+                    'smallest number of samples in a shell (current view)={}, '
+                    'n_eff={!r} (targets n_shell={}, n_eff={})'.format(
                         c['ret'], bool(s.explored),
-                        int(np.min(s.shell_n)) if len(s.shell_n) else None,
+                        min(counts) if counts else None,
                         float(s.n_eff), r['n_shell'], r['n_eff']))
             if not c['ret'] and int(s.n_like) < c['n_like_max']:
                 if c['timeout'] is None:
